@@ -877,3 +877,78 @@ def c02_composite_forwarding(tier, rng):
                              "required": "every member receives %s%s once" % (name, want_args)})
     return {"obligations": obl, "discharged": dis, "violations": viol, "cases": obl, "exhaustive": True,
             "bound": "1-3 members x 10 calls", "samples": [{"method": "add_confirmed_features", "members": 2}]}
+
+
+# ---- the trailer lines of the count tables against the reads reported without a feature ---------------------------------------------------------------
+def _trailer_problems():
+    """one pipeline run with the bundled annotation on the bundled reads plus 9 reads placed in a stretch without annotated genes (spliced and
+    unspliced): __no_feature of gene_counts and transcript_counts equals the number of reads that read_assignments.tsv reports without
+    any isoform"""
+    import gzip, os, shutil
+    import pysam
+    from contracts import c_novel
+
+    def prepare(d):
+        seq = "".join(l.strip() for l in gzip.open(os.path.join(d, "chr9.4M.fa.gz"), "rt") if not l.startswith(">")).upper()
+        inp = pysam.AlignmentFile(os.path.join(d, "chr9.4M.ont.sim.polya.bam"))
+        tid = inp.get_tid("chr9")
+        recs = [a for a in inp]
+        base = 3041000
+        for k in range(9):
+            ex = [(base + 2000 * k + 100, base + 2000 * k + 600)] if k % 3 else [(base + 2000 * k + 100, base + 2000 * k + 400), (base + 2000 * k + 900, base + 2000 * k + 1300)]
+            a = pysam.AlignedSegment(inp.header)
+            a.query_name, a.flag, a.reference_id, a.reference_start, a.mapping_quality = "far_%d" % k, 0, tid, ex[0][0] - 1, 60
+            cig, s_ = [], ""
+            for i, (x, y) in enumerate(ex):
+                if i:
+                    cig.append((3, x - ex[i - 1][1] - 1))
+                cig.append((0, y - x + 1)); s_ += seq[x - 1:y]
+            a.cigartuples, a.query_sequence = cig, s_
+            a.query_qualities = pysam.qualitystring_to_array("I" * len(s_))
+            a.set_tag("NM", 0)
+            recs.append(a)
+        with pysam.AlignmentFile(os.path.join(d, "far.bam"), "wb", template=inp) as out:
+            for a in sorted(recs, key=lambda x: (x.reference_id if x.reference_id >= 0 else 10 ** 9, x.reference_start)):
+                out.write(a)
+        pysam.index(os.path.join(d, "far.bam"))
+        return "far.bam", "chr9.4M.gtf.gz"
+    d, p = c_novel._run_pipeline(["--no_model_construction"], True, prepare)
+    problems = []
+    try:
+        if p.returncode != 0:
+            return ["isoquant exited %d: %s" % (p.returncode, p.stderr[-300:])]
+        out = os.path.join(d, "out", "S")
+        per_read = {}
+        for line in gzip.open(os.path.join(out, "S.read_assignments.tsv.gz"), "rt"):
+            if line.startswith("#"):
+                continue
+            f = line.rstrip("\n").split("\t")
+            per_read.setdefault(f[0], []).append(f[3])
+        no_feature = sum(1 for r, isos in per_read.items() if all(i == "." for i in isos))
+        far = sum(1 for r in per_read if r.startswith("far_"))
+        if far != 9:
+            problems.append("%d of the 9 reads placed between the genes are reported" % far)
+        for table in ("gene", "transcript"):
+            val = None
+            for line in open(os.path.join(out, "S.%s_counts.tsv" % table)):
+                if line.startswith("__no_feature"):
+                    val = int(float(line.split("\t")[1]))
+            if val != no_feature:
+                problems.append("%s_counts: __no_feature = %s, read_assignments.tsv reports %d reads without an isoform (9 of them placed between the genes)" % (table, val, no_feature))
+    finally:
+        shutil.rmtree(d, ignore_errors=True)
+    return problems
+
+
+def replay_trailer(d):
+    p = _trailer_problems()
+    return (not p), "trailer lines: %s" % (p or "equal the reads reported without a feature")
+
+
+@bounded("C02.trailer_lines", ["C02", "C05"], note="one pipeline run with the bundled annotation on the bundled reads plus 9 reads in a stretch without annotated genes: "
+         "__no_feature of the gene and transcript tables equals the number of reads reported without any isoform")
+def c02_trailer_lines(tier, rng):
+    p = _trailer_problems()
+    viol = [{"obligation": "C02.trailer_lines", "inputs": {"scenario": "bundled reads + 9 reads between the genes"}, "observed": p[:3],
+             "required": "__no_feature equals the number of reads reported without a feature", "replay_call": "contracts.c_counters:replay_trailer"}] if p else []
+    return {"cases": 1, "bound": "1 pipeline run", "violations": viol, "samples": [{"reads_between_genes": 9}]}
